@@ -294,6 +294,41 @@ def check_piped(case, ctx):
     ctx.show(dict(shape=[case["nk"], case["nth"]], ihmax=case["ihmax"], values=case["values"][:32]))
 
 
+@st.composite
+def threads_case(draw):
+    shapes = [(draw(st.integers(12, 30)), draw(st.integers(12, 36))) for _ in range(draw(st.sampled_from([1, 1, 2])))]
+    return dict(shapes=shapes, n=draw(st.integers(48, 128)), workers=draw(st.sampled_from([2, 8, 16])), ihmax=draw(st.sampled_from([50, 100, 200])),
+                specs=[draw(gen.spectrum(kinds=("multinoisy", "multi"))) for _ in range(3)])
+
+
+def check_threads(case, ctx):
+    """The extension's routine entered from several threads at once (what dask's threaded scheduler does with a
+    chunked dataset): every call must return the labelling the same input gets on its own, labels within 1..n."""
+    from concurrent.futures import ThreadPoolExecutor
+
+    from wavespectra.partition import specpart
+
+    maps = []
+    for p in range(case["n"]):
+        nf, nd = case["shapes"][p % len(case["shapes"])]
+        E = gen.build_spectrum(case["specs"][p % 3], nf, nd)
+        maps.append(np.ascontiguousarray(np.roll(E, p, axis=1) * (1 + p % 5), dtype=np.float32))
+    with ctx.lib("specpart.partition (one thread)"):
+        serial = [np.array(specpart.partition(m, case["ihmax"])) for m in maps]
+    with ctx.lib("specpart.partition (%d threads)" % case["workers"]):
+        with ThreadPoolExecutor(case["workers"]) as ex:
+            par = list(ex.map(lambda m: np.array(specpart.partition(m, case["ihmax"])), maps))
+    for p, (a, b) in enumerate(zip(serial, par)):
+        if b.min() < 1:
+            raise Violation("threads-label-range", "call %d of %d (shape %s, %d threads): label %d outside 1..n" % (p, len(maps), maps[p].shape, case["workers"], b.min()))
+        if not np.array_equal(a, b):
+            raise Violation("threads-differs", "call %d of %d (shape %s, %d threads) returns another labelling than the same input on its own (%d bins differ)" % (p, len(maps), maps[p].shape, case["workers"], int((a != b).sum())))
+    ctx.nt(max(int(a.max()) for a in serial) >= 2)
+    ctx.evals += len(maps) - 1
+    ctx.label("threads=%d" % case["workers"], "shapes=%d" % len(case["shapes"]))
+    ctx.show(dict(shapes=case["shapes"], calls=len(maps), workers=case["workers"], basins=[int(a.max()) for a in serial[:6]]))
+
+
 def facets():
     ih = "1,2,3,4,5,7,100,1000"
     return [
@@ -305,6 +340,8 @@ def facets():
         Custom("native_rand_8x8", _native("native_rand_8x8", lambda t, s, sh, n: ["rand", sh, n, (s + 29) % 1000003, 20000 if t == "quick" else 3000000, 8, 8, 4, ih]), check=c04_check_values),
         Custom("libfuzzer", fuzz, shards={"quick": 2, "thorough": 16}, check=c04_check_values),
         Facet("piped", piped_case(), check_piped, quick=600, thorough=30000, qshards=2),
+        Facet("extension_threads", threads_case(), check_threads, quick=16, thorough=600, qshards=2,
+              doc="the built extension entered from 2-16 threads at once on 48-128 distinct maps (one or two shapes)"),
     ]
 
 
